@@ -23,18 +23,28 @@ Reading guide.
   incremented once; per replicate one evaluation at clock 0 of pristine deep copies of the five
   start containers (copied in any order, the clock zeroed anywhere before).  Proved sound
   (Lemmas/ProgramSymSound.lean); closed by `decide` for the schedule of the current source.
-* `Ready ops st` : the state `evolve` is called in (five start slots; once initialised — by the caller
+* `Ready I ops st` : the state `evolve` is called in (five start slots; once initialised — by the caller
   or by the initialisation operator — the object graphs below the start containers exist, are not
-  referenced from outside, the heap is well formed; leftover working variables point elsewhere).
-* `Respects S ops` : the only assumption on operators and logbook, over reachability — a call that
+  referenced from outside, the heap is well formed; leftover working variables point elsewhere; the
+  operators' internal state satisfies the invariant `I`).
+* `Respects I S ops` : the only assumption on operators and logbook, over reachability and relative to
+  an invariant `I` between their internal state and the heap — in a state satisfying `I`, a call that
   is not handed anything inside the object graphs of the start containers `S` leaves those graphs
-  alone, stores no reference into them, and returns nothing inside them.
-  `Frame ops` (mutate only what is reachable from the arguments, allocate) implies it.
+  alone, stores no reference into them, returns nothing inside them, and re-establishes `I`.
+  `Frame ops` (mutate only what is reachable from the arguments, allocate; `I` = nothing is kept) and
+  `Footprint known ops` (mutate anything reachable from the arguments or from anything EVER handed /
+  returned / allocated and kept in the internal state; `I` = nothing kept lies inside the start graphs)
+  both imply it.  The scripted operators the correspondence driver runs satisfy `Footprint`.
 * `effNgen sc cfg = some n` : the generation count the call works with — the argument `ngen`, or
   `t_max` for `ngen = None` when the schedule implements that documented default (`HandlesNone`).
-* `specTrace R nrep n loginit V0 trace` : the decidable Spec (also run on the trace of the real class).
+* `specTrace R nrep n loginit V0 trace` : the decidable Spec (also run on the trace of the real class);
+  `specFull` adds the replicate-counter clause; `spec_iff` states both declaratively (`TraceSpec`).
+* `levelCopyStart dst i k` : a copy that stops `k` levels down; `shallow_level_counterexample`.
 -/
-import PybropsModel.Lemmas.ProgramDemo
+import PybropsModel.Lemmas.ProgramKeep
+import PybropsModel.Lemmas.ProgramReps
+import PybropsModel.Lemmas.ProgramSpecIff
+import PybropsModel.Lemmas.ProgramScripted
 import PybropsModel.Generated.C20Schedule
 set_option autoImplicit false
 set_option linter.unusedSectionVars false
@@ -54,7 +64,7 @@ theorem schedule_reset_selfcontained : wfReset C20Schedule.evolve = true := by d
 theorem schedule_handles_none : HandlesNone C20Schedule.evolve = true := by decide
 
 section generic
-variable {σ V : Type} [DecidableEq V]
+variable {σ V : Type} [DecidableEq V] {I : σ → Heap (Cell V) → Prop}
 
 /-- **Main theorem (full strength).**  For every schedule with the right dataflow, all replicate
     and generation counts (`None` included when the schedule implements its default), both settings
@@ -66,7 +76,7 @@ variable {σ V : Type} [DecidableEq V]
     `R` may be any relation that holds between items with the same reference: `sameRef` gives
     identity wiring, `sameOrEqual` is the relation the run-time oracle uses. -/
 theorem evolve_meets_spec (sc : Schedule) (hwf : WellFormed sc = true) (ops : Ops σ V) (cfg : Cfg V)
-    (st : State σ V) (hr : Ready ops st) (hR : Respects (startRefs ops st) ops)
+    (st : State σ V) (hr : Ready I ops st) (hR : Respects I (startRefs ops st) ops)
     (n : Nat) (hn : effNgen sc cfg = some n)
     (R : Item (View V) → Item (View V) → Bool) (hRR : ReflOnRefs R) :
     specTrace R cfg.nrep n cfg.loginit (startVals cfg.depth st.heap st.start)
@@ -75,18 +85,68 @@ theorem evolve_meets_spec (sc : Schedule) (hwf : WellFormed sc = true) (ops : Op
   rw [q, newEvents_of_append tr]
   exact spec R hRR
 
+/-- **The complete run-time oracle is sound for the model** (`spec_sound`): besides the call protocol,
+    the replicate counter every call sees is constant within a replicate and grows by exactly one from
+    each replicate to the next, whatever `lbook.rep` was before the call.  `specFull` is the Bool the
+    driver evaluates on the trace recorded from the real class. -/
+theorem evolve_meets_spec_full (sc : Schedule) (hwf : WellFormed sc = true) (ops : Ops σ V) (cfg : Cfg V)
+    (st : State σ V) (hr : Ready I ops st) (hR : Respects I (startRefs ops st) ops)
+    (n : Nat) (hn : effNgen sc cfg = some n)
+    (R : Item (View V) → Item (View V) → Bool) (hRR : ReflOnRefs R) :
+    specFull R cfg.nrep n cfg.loginit (startVals cfg.depth st.heap st.start)
+      (newEvents st (evolve ops cfg sc st)) = true := by
+  obtain ⟨s', es0, es1, V0, q, _, tr, _, h1, h2, reps, _, spec, hk, _⟩ := evolve_wf (cfg := cfg) sc hwf hr hR n hn
+  rw [q, newEvents_of_append tr]
+  unfold specFull
+  rw [spec R hRR, Bool.true_and]
+  cases hall : st.start.all Option.isSome with
+  | true =>
+    rw [(h1 hall).1, List.nil_append, specBody_plain _ _ hk, reps]
+    exact repsOK_repsOf _ _ _ _
+  | false =>
+    rw [(h2 hall).1]
+    show repsOK cfg.loginit n cfg.nrep ((specBody cfg.loginit (initEvent ops cfg st :: es1)).map (fun e => e.rep)) = true
+    rw [specBody_init _ _ _ rfl hk, reps]
+    exact repsOK_repsOf _ _ _ _
+
+/-- **`spec_iff`: the oracle says what the property says.**  The Bool `specFull` evaluated by the driver
+    (on the model's trace in the theorems, on the trace of the real class at run time) holds exactly
+    when the trace is, declaratively (`TraceSpec`, `IsRep`, `IsGen`, `Handed`, `EvIs` in
+    Lemmas/ProgramSpecIff.lean): five existing initial containers; then exactly `nrep` replicates, each
+    = the initial evaluation at clock 0 handed containers whose contents equal the initial state, its
+    log entry when `loginit`, and exactly `ngen` generations of pselect·log·mate·log·evaluate·log·
+    sselect·log at clocks 1, 2, …, every call handed what its predecessor returned and seeing the start
+    containers with their initial contents; and the replicate counter is `r0 + r + 1` throughout
+    replicate `r`. -/
+theorem spec_iff (R : Item (View V) → Item (View V) → Bool) (nrep ngen : Nat) (loginit : Bool)
+    (V0given : List (Option (View V))) (trace : List (Event (View V))) :
+    specFull R nrep ngen loginit V0given trace = true ↔
+      TraceSpec R nrep ngen loginit V0given trace ∧
+      ((specBody loginit trace).map (fun e => e.rep) = [] ∨
+        ∃ r0 : Int, (specBody loginit trace).map (fun e => e.rep) = repsOf r0 loginit ngen nrep) := by
+  unfold specFull
+  rw [Bool.and_eq_true, specTrace_iff, repsOK_iff]
+
+/-- the main theorem in declarative form -/
+theorem evolve_meets_trace_spec (sc : Schedule) (hwf : WellFormed sc = true) (ops : Ops σ V) (cfg : Cfg V)
+    (st : State σ V) (hr : Ready I ops st) (hR : Respects I (startRefs ops st) ops)
+    (n : Nat) (hn : effNgen sc cfg = some n) :
+    TraceSpec sameRef cfg.nrep n cfg.loginit (startVals cfg.depth st.heap st.start)
+      (newEvents st (evolve ops cfg sc st)) :=
+  (specTrace_iff _ _ _ _ _ _).mp (evolve_meets_spec sc hwf ops cfg st hr hR n hn sameRef sameRef_refl)
+
 /-- `ngen = None` (documented: "use t_max"): a schedule that implements the default runs `t_max`
     generations per replicate and meets the Spec for that count -/
 theorem evolve_ngen_none_meets_spec (sc : Schedule) (hwf : WellFormed sc = true) (hH : HandlesNone sc = true)
-    (ops : Ops σ V) (cfg : Cfg V) (hnone : cfg.ngen = none) (st : State σ V) (hr : Ready ops st)
-    (hR : Respects (startRefs ops st) ops) (R : Item (View V) → Item (View V) → Bool) (hRR : ReflOnRefs R) :
+    (ops : Ops σ V) (cfg : Cfg V) (hnone : cfg.ngen = none) (st : State σ V) (hr : Ready I ops st)
+    (hR : Respects I (startRefs ops st) ops) (R : Item (View V) → Item (View V) → Bool) (hRR : ReflOnRefs R) :
     specTrace R cfg.nrep cfg.tmax cfg.loginit (startVals cfg.depth st.heap st.start)
       (newEvents st (evolve ops cfg sc st)) = true :=
   evolve_meets_spec sc hwf ops cfg st hr hR cfg.tmax (by simp [effNgen, hH, hnone]) R hRR
 
 /-- earlier log of calls is never rewritten: the trace only grows -/
 theorem evolve_trace_extends (sc : Schedule) (hwf : WellFormed sc = true) (ops : Ops σ V) (cfg : Cfg V)
-    (st : State σ V) (hr : Ready ops st) (hR : Respects (startRefs ops st) ops)
+    (st : State σ V) (hr : Ready I ops st) (hR : Respects I (startRefs ops st) ops)
     (n : Nat) (hn : effNgen sc cfg = some n) :
     (evolve ops cfg sc st).trace = st.trace ++ newEvents st (evolve ops cfg sc st) := by
   obtain ⟨s', es0, es1, V0, q, _, tr, _⟩ := evolve_wf (cfg := cfg) sc hwf hr hR n hn
@@ -97,7 +157,7 @@ theorem evolve_trace_extends (sc : Schedule) (hwf : WellFormed sc = true) (ops :
     and — when the programme was initialised by the caller — the same slots with the same contents
     as before the call, whatever the operators did to their working copies. -/
 theorem evolve_start_intact (sc : Schedule) (hwf : WellFormed sc = true) (ops : Ops σ V) (cfg : Cfg V)
-    (st : State σ V) (hr : Ready ops st) (hR : Respects (startRefs ops st) ops)
+    (st : State σ V) (hr : Ready I ops st) (hR : Respects I (startRefs ops st) ops)
     (n : Nat) (hn : effNgen sc cfg = some n) :
     (evolve ops cfg sc st).bad = false ∧
     (evolve ops cfg sc st).start = (startRefs ops st).map some ∧
@@ -118,7 +178,7 @@ theorem evolve_start_intact (sc : Schedule) (hwf : WellFormed sc = true) (ops : 
 /-- when `evolve` had to initialise the programme, the start containers end with exactly the
     contents the initialisation operator returned -/
 theorem evolve_start_intact_after_init (sc : Schedule) (hwf : WellFormed sc = true) (ops : Ops σ V)
-    (cfg : Cfg V) (st : State σ V) (hr : Ready ops st) (hR : Respects (startRefs ops st) ops)
+    (cfg : Cfg V) (st : State σ V) (hr : Ready I ops st) (hR : Respects I (startRefs ops st) ops)
     (n : Nat) (hn : effNgen sc cfg = some n) (hnone : st.start.all Option.isSome = false) :
     startVals cfg.depth (evolve ops cfg sc st).heap (evolve ops cfg sc st).start =
       vals cfg.depth (ops.init st.ost st.heap).2.1 (ops.init st.ost st.heap).2.2 := by
@@ -130,7 +190,7 @@ theorem evolve_start_intact_after_init (sc : Schedule) (hwf : WellFormed sc = tr
 /-- **Replicate counter.**  `lbook.rep` grows by one per replicate and every call of replicate `r`
     (0-based) sees `rep₀ + r + 1`. -/
 theorem evolve_replicate_counter (sc : Schedule) (hwf : WellFormed sc = true) (ops : Ops σ V) (cfg : Cfg V)
-    (st : State σ V) (hr : Ready ops st) (hR : Respects (startRefs ops st) ops)
+    (st : State σ V) (hr : Ready I ops st) (hR : Respects I (startRefs ops st) ops)
     (n : Nat) (hn : effNgen sc cfg = some n) :
     (evolve ops cfg sc st).rep = st.rep + cfg.nrep ∧
     ((newEvents st (evolve ops cfg sc st)).filter (fun e => !(e.kind == EvKind.init))).map (fun e => e.rep)
@@ -146,7 +206,7 @@ theorem evolve_replicate_counter (sc : Schedule) (hwf : WellFormed sc = true) (o
   have e1 : es1.filter (fun e => !(e.kind == EvKind.init)) = es1 := by
     apply List.filter_eq_self.mpr
     intro e he
-    simp [hk e he]
+    simp [(hk e he).2]
   rw [e0, e1, List.nil_append, reps]
 
 /-- **Explicit call sequence.**  Apart from the optional initialisation event the recorded
@@ -154,7 +214,7 @@ theorem evolve_replicate_counter (sc : Schedule) (hwf : WellFormed sc = true) (o
     `(evaluate@0 · [log_initialize@0 if loginit] · (pselect·log·mate·log·evaluate·log·sselect·log)@g for g = 1..n)^nrep`:
     every operator exactly once per generation, in this order, a log entry after every step. -/
 theorem evolve_call_sequence (sc : Schedule) (hwf : WellFormed sc = true) (ops : Ops σ V) (cfg : Cfg V)
-    (st : State σ V) (hr : Ready ops st) (hR : Respects (startRefs ops st) ops)
+    (st : State σ V) (hr : Ready I ops st) (hR : Respects I (startRefs ops st) ops)
     (n : Nat) (hn : effNgen sc cfg = some n) :
     ((newEvents st (evolve ops cfg sc st)).filter (fun e => !(e.kind == EvKind.init))).map Event.shape
       = traceShape cfg.loginit n cfg.nrep := by
@@ -167,7 +227,7 @@ theorem evolve_call_sequence (sc : Schedule) (hwf : WellFormed sc = true) (ops :
   have e1 : es1.filter (fun e => !(e.kind == EvKind.init)) = es1 := by
     apply List.filter_eq_self.mpr
     intro e he
-    simp [hk e he]
+    simp [(hk e he).2]
   rw [e0, e1, List.nil_append]
   obtain ⟨pre, hpre, hshape⟩ := checkReps_shape sameRef V0 cfg.loginit n cfg.nrep es1 []
     (chk sameRef sameRef_refl)
@@ -177,9 +237,9 @@ theorem evolve_call_sequence (sc : Schedule) (hwf : WellFormed sc = true) (ops :
 /-- **`evolve` can be called again.**  The state it leaves satisfies the assumptions under which it
     was called, with the same start containers — so all theorems above hold for every later call. -/
 theorem evolve_again (sc : Schedule) (hwf : WellFormed sc = true) (ops : Ops σ V) (cfg : Cfg V)
-    (st : State σ V) (hr : Ready ops st) (hR : Respects (startRefs ops st) ops)
+    (st : State σ V) (hr : Ready I ops st) (hR : Respects I (startRefs ops st) ops)
     (n : Nat) (hn : effNgen sc cfg = some n) :
-    Ready ops (evolve ops cfg sc st) ∧ startRefs ops (evolve ops cfg sc st) = startRefs ops st := by
+    Ready I ops (evolve ops cfg sc st) ∧ startRefs ops (evolve ops cfg sc st) = startRefs ops st := by
   obtain ⟨s', es0, es1, V0, q, g, _, _, _, _, _, _, _, _, _, _, hS⟩ := evolve_wf (cfg := cfg) sc hwf hr hR n hn
   rw [q]
   exact ⟨(g.ready hS).1, (g.ready hS).2.1⟩
@@ -189,8 +249,8 @@ theorem evolve_again (sc : Schedule) (hwf : WellFormed sc = true) (ops : Ops σ 
     containers (**a disjoint graph**), what is seen below them equals the initial state (**an equal
     graph**), the clock is 0, nothing is logged and the invariant still holds. -/
 theorem reset_restores_start (sc : Schedule) (hwr : wfReset sc = true) (ops : Ops σ V) (cfg : Cfg V)
-    (S : List Ref) (V0 : List (Option (View V))) (hS : S.length = 5) (hR : Respects S ops) (st : State σ V)
-    (g : Good cfg.depth S V0 st) :
+    (S : List Ref) (V0 : List (Option (View V))) (hS : S.length = 5) (hR : Respects I S ops) (st : State σ V)
+    (g : Good I cfg.depth S V0 st) :
     ∃ cur : List Ref, cur.length = 5 ∧
       five.map (resetCall ops cfg sc st).regs = cur.map some ∧
       vals cfg.depth (resetCall ops cfg sc st).heap cur = V0 ∧
@@ -198,7 +258,7 @@ theorem reset_restores_start (sc : Schedule) (hwr : wfReset sc = true) (ops : Op
         ∀ x, Reach (resetCall ops cfg sc st).heap a x → ¬ InReg (resetCall ops cfg sc st).heap S x) ∧
       (resetCall ops cfg sc st).t = 0 ∧
       (resetCall ops cfg sc st).trace = st.trace ∧
-      Good cfg.depth S V0 (resetCall ops cfg sc st) := by
+      Good I cfg.depth S V0 (resetCall ops cfg sc st) := by
   obtain ⟨s', cur, q, g', tr, t0, _, f, l, hv⟩ := reset_spec (cfg := cfg) hR hS sc hwr g
   rw [q]
   refine ⟨cur, l, f, hv, ?_, t0, tr, g'⟩
@@ -213,11 +273,11 @@ theorem reset_restores_start (sc : Schedule) (hwr : wfReset sc = true) (ops : Op
     its predecessor returned, and leaves the clock at `t + ngen`. -/
 theorem advance_meets_spec (sc : Schedule) (hwf : WellFormed sc = true) (ops : Ops σ V) (cfg : Cfg V)
     (n : Nat) (hn : cfg.ngen = some n)
-    (S : List Ref) (V0 : List (Option (View V))) (hS : S.length = 5) (hR : Respects S ops) (st : State σ V)
-    (g : Good cfg.depth S V0 st) (cur : List Ref) (hcur : five.map st.regs = cur.map some) (hl : cur.length = 5)
+    (S : List Ref) (V0 : List (Option (View V))) (hS : S.length = 5) (hR : Respects I S ops) (st : State σ V)
+    (g : Good I cfg.depth S V0 st) (cur : List Ref) (hcur : five.map st.regs = cur.map some) (hl : cur.length = 5)
     (R : Item (View V) → Item (View V) → Bool) (hRR : ReflOnRefs R) :
     specAdvance R n st.t V0 (items cur (vals cfg.depth st.heap cur)) (newEvents st (advanceCall ops cfg sc st)) = true ∧
-      (advanceCall ops cfg sc st).t = st.t + n ∧ Good cfg.depth S V0 (advanceCall ops cfg sc st) := by
+      (advanceCall ops cfg sc st).t = st.t + n ∧ Good I cfg.depth S V0 (advanceCall ops cfg sc st) := by
   simp only [WellFormed, Bool.and_eq_true] at hwf
   obtain ⟨s', es, cur', q, g', tr, t', _, _, _, spec⟩ :=
     advance_spec (cfg := cfg) hR hS sc hwf.1.2 hwf.1.1.2 n hn g cur hcur hl
@@ -231,8 +291,8 @@ theorem advance_meets_spec (sc : Schedule) (hwf : WellFormed sc = true) (ops : O
     its generations from the current clock — and the start containers still hold `V0` at the end. -/
 theorem history_meets_spec (sc : Schedule) (hwf : WellFormed sc = true) (hwr : wfReset sc = true)
     (ops : Ops σ V) (tmax : Nat) (emptyV : V) (depth : Nat) (S : List Ref) (V0 : List (Option (View V)))
-    (hS : S.length = 5) (hR : Respects S ops) (R : Item (View V) → Item (View V) → Bool) (hRR : ReflOnRefs R)
-    (cs : List Call) (held : Bool) (st : State σ V) (g : Good depth S V0 st)
+    (hS : S.length = 5) (hR : Respects I S ops) (R : Item (View V) → Item (View V) → Bool) (hRR : ReflOnRefs R)
+    (cs : List Call) (held : Bool) (st : State σ V) (g : Good I depth S V0 st)
     (hheld : held = true → ∃ cur : List Ref, five.map st.regs = cur.map some ∧ cur.length = 5)
     (hadm : admissible cs held = true)
     (hnone : ∀ c ∈ cs, ∀ nrep li, c = .evolve nrep none li → HandlesNone sc = true) :
@@ -245,18 +305,45 @@ theorem history_meets_spec (sc : Schedule) (hwf : WellFormed sc = true) (hwr : w
 /-- the classical frame condition ("operators and logbook mutate only what they are handed, and
     allocate") is sufficient: it implies `Respects` for any start containers -/
 theorem evolve_meets_spec_of_frame (sc : Schedule) (hwf : WellFormed sc = true) (ops : Ops σ V)
-    (cfg : Cfg V) (st : State σ V) (hr : Ready ops st) (hF : Frame ops) (n : Nat)
+    (cfg : Cfg V) (st : State σ V) (hr : Ready (NoKept (startRefs ops st)) ops st) (hF : Frame ops) (n : Nat)
     (hn : effNgen sc cfg = some n) :
     specTrace sameRef cfg.nrep n cfg.loginit (startVals cfg.depth st.heap st.start)
       (newEvents st (evolve ops cfg sc st)) = true :=
   evolve_meets_spec sc hwf ops cfg st hr (hF.respects _) n hn sameRef sameRef_refl
 
+/-- **Operators that keep what they are handed and mutate it later.**  Let the operators' internal
+    state hold references (`known`), and let every call be free to mutate in place anything reachable
+    from what it is handed now or from anything it was EVER handed, returned or allocated (`Footprint`).
+    If at the time of the call nothing they hold lies inside the object graphs of the stored start
+    containers, then the run meets the complete Spec, does not raise, the start slots keep their
+    references and (for a programme initialised by the caller) their contents, and afterwards the
+    operators still hold nothing inside those graphs — although they now hold every working container
+    of every replicate.  This rests on `reset()` handing out deep copies only: see
+    `kept_reference_alias_counterexample` for a `reset()` that hands out one start container itself. -/
+theorem evolve_meets_spec_of_footprint (sc : Schedule) (hwf : WellFormed sc = true) (ops : Ops σ V)
+    (known : σ → List Ref) (hF : Footprint known ops) (cfg : Cfg V) (st : State σ V)
+    (hr : Ready (KeptOutside known (startRefs ops st)) ops st) (n : Nat) (hn : effNgen sc cfg = some n) :
+    specFull sameRef cfg.nrep n cfg.loginit (startVals cfg.depth st.heap st.start)
+      (newEvents st (evolve ops cfg sc st)) = true ∧
+    (evolve ops cfg sc st).bad = false ∧
+    (evolve ops cfg sc st).start = (startRefs ops st).map some ∧
+    (st.start.all Option.isSome = true →
+      startVals cfg.depth (evolve ops cfg sc st).heap (evolve ops cfg sc st).start = startVals cfg.depth st.heap st.start) ∧
+    KeptOutside known (startRefs ops st) (evolve ops cfg sc st).ost (evolve ops cfg sc st).heap := by
+  have hR := hF.respects (startRefs ops st)
+  have h2 := evolve_start_intact sc hwf ops cfg st hr hR n hn
+  refine ⟨evolve_meets_spec_full sc hwf ops cfg st hr hR n hn sameRef sameRef_refl, h2.1, h2.2.1,
+    fun hall => (h2.2.2 hall).2, ?_⟩
+  obtain ⟨s', _, _, _, q, g, _⟩ := evolve_wf (cfg := cfg) sc hwf hr hR n hn
+  rw [q]
+  exact g.inv
+
 /-- **Instance for the current source** (full: the generation count is the argument `ngen` of
     `evolve`, an integer or `None` = "use t_max").  The schedule regenerated from `/repo` satisfies
     the Spec (identity wiring) for all operators, replicate counts, generation counts and initial
     states, does not raise, and keeps its start slots. -/
-theorem current_source_meets_spec (ops : Ops σ V) (cfg : Cfg V) (st : State σ V) (hr : Ready ops st)
-    (hR : Respects (startRefs ops st) ops) :
+theorem current_source_meets_spec (ops : Ops σ V) (cfg : Cfg V) (st : State σ V) (hr : Ready I ops st)
+    (hR : Respects I (startRefs ops st) ops) :
     specTrace sameRef cfg.nrep (cfg.ngen.getD cfg.tmax) cfg.loginit (startVals cfg.depth st.heap st.start)
       (newEvents st (evolve ops cfg C20Schedule.evolve st)) = true ∧
     (evolve ops cfg C20Schedule.evolve st).bad = false ∧
@@ -267,7 +354,40 @@ theorem current_source_meets_spec (ops : Ops σ V) (cfg : Cfg V) (st : State σ 
    (evolve_start_intact _ schedule_wellformed ops cfg st hr hR _ he).1,
    (evolve_start_intact _ schedule_wellformed ops cfg st hr hR _ he).2.1⟩
 
+/-- **Instance for the current source, operators that keep what they are handed.**  The schedule
+    regenerated from `/repo` meets the complete Spec, does not raise and keeps its start slots for all
+    operators satisfying the footprint condition — free to mutate later anything they were ever handed —
+    that hold no reference into the start containers' object graphs when `evolve` is called. -/
+theorem current_source_meets_spec_of_footprint (ops : Ops σ V) (known : σ → List Ref) (hF : Footprint known ops)
+    (cfg : Cfg V) (st : State σ V) (hr : Ready (KeptOutside known (startRefs ops st)) ops st) :
+    specFull sameRef cfg.nrep (cfg.ngen.getD cfg.tmax) cfg.loginit (startVals cfg.depth st.heap st.start)
+      (newEvents st (evolve ops cfg C20Schedule.evolve st)) = true ∧
+    (evolve ops cfg C20Schedule.evolve st).bad = false ∧
+    (evolve ops cfg C20Schedule.evolve st).start = (startRefs ops st).map some :=
+  have he : effNgen C20Schedule.evolve cfg = some (cfg.ngen.getD cfg.tmax) := by
+    simp [effNgen, schedule_handles_none]
+  have h := evolve_meets_spec_of_footprint _ schedule_wellformed ops known hF cfg st hr _ he
+  ⟨h.1, h.2.1, h.2.2.1⟩
+
 end generic
+
+/-- **The operators the correspondence driver runs are covered by the theorems.**  The scripted
+    operators of Drv/C20.lean — the Lean mirror of the Python stubs handed to the real class: they mutate
+    what they are handed in place at any depth, mutate objects KEPT from earlier calls, return handed
+    objects, aliases and new containers, all as dictated by an arbitrary script — satisfy the footprint
+    frame condition (`scripted_footprint`); hence for EVERY script, start graph, replicate and generation
+    count the model run the driver compares with the real class meets the complete Spec and leaves the
+    start containers intact. -/
+theorem driver_operators_meet_spec (sc : Schedule) (hwf : WellFormed sc = true) (cfg : Cfg Drv.C20.D)
+    (st : State Drv.C20.OSt Drv.C20.D)
+    (hr : Ready (KeptOutside (fun s : Drv.C20.OSt => s.seen) (startRefs Drv.C20.scripted st)) Drv.C20.scripted st)
+    (n : Nat) (hn : effNgen sc cfg = some n) :
+    specFull sameRef cfg.nrep n cfg.loginit (startVals cfg.depth st.heap st.start)
+      (newEvents st (evolve Drv.C20.scripted cfg sc st)) = true ∧
+    (evolve Drv.C20.scripted cfg sc st).bad = false ∧
+    (evolve Drv.C20.scripted cfg sc st).start = (startRefs Drv.C20.scripted st).map some :=
+  have h := evolve_meets_spec_of_footprint sc hwf Drv.C20.scripted _ scripted_footprint cfg st hr n hn
+  ⟨h.1, h.2.1, h.2.2.1⟩
 
 /-! ### non-vacuity: concrete operators, states, schedules and runs -/
 section examples
@@ -275,11 +395,11 @@ open Program.Demo
 
 /-- an operator family that mutates handed containers in place, allocates and aliases satisfies
     the hypothesis of the theorems, for any start containers -/
-example (S : List Ref) : Respects S demoOps := demo_respects S
+example (S : List Ref) : Respects (NoKept S) S demoOps := demo_respects S
 
 /-- a caller-initialised programme and a programme with a missing start container satisfy `Ready` -/
-example : Ready demoOps given := given_ready demoOps
-example : Ready demoOps partly := partly_ready
+example : Ready (NoKept [0, 1, 2, 3, 4]) demoOps given := given_ready demoOps
+example : Ready (NoKept [4, 5, 6, 7, 8]) demoOps partly := partly_ready
 
 /-- `WellFormed` is a property of the dataflow, not of the text: the canonical skeleton, the patched
     one, and a programme written quite differently (deep copies in another order with a redundant one,
@@ -349,10 +469,36 @@ example : WellFormed shallow = false := by decide
 example : specTrace sameOrEqual 2 1 true (startVals 2 given.heap given.start)
     (evolve demoOps ⟨2, some 1, 9, true, 0, 2⟩ shallow given).trace = false := by decide +kernel
 
+/-- operators that keep everything they are handed meet the hypotheses of
+    `evolve_meets_spec_of_footprint` (3 replicates, 2 generations; after 2 x 1 they hold 126 references) -/
+example : specFull sameRef 3 2 true (startVals 2 givenK.heap givenK.start)
+    (newEvents givenK (evolve keeperOps ⟨3, some 2, 9, true, 0, 2⟩ C20Schedule.evolve givenK)) = true :=
+  (evolve_meets_spec_of_footprint _ schedule_wellformed keeperOps _ keeper_footprint ⟨3, some 2, 9, true, 0, 2⟩
+    givenK givenK_ready 2 rfl).1
+example : (evolve keeperOps ⟨2, some 1, 9, true, 0, 2⟩ canonical givenK).ost.length = 126 := by decide +kernel
+
+/-- a concrete driver state and script (in-place mutation at once, later mutation of kept objects,
+    fresh returns) meet the hypotheses of `driver_operators_meet_spec`; the late mutations really happen
+    (cell 11 = the list below the first working copy of `genome`, kept from the first call) -/
+example : specFull sameRef 2 1 true (startVals 5 drvState.heap drvState.start)
+    (newEvents drvState (evolve Drv.C20.scripted ⟨2, some 1, 9, true, Drv.C20.dictD, 5⟩ C20Schedule.evolve drvState)) = true :=
+  (driver_operators_meet_spec _ schedule_wellformed ⟨2, some 1, 9, true, Drv.C20.dictD, 5⟩ drvState drv_ready 1 rfl).1
+example : (evolve Drv.C20.scripted ⟨2, some 1, 9, true, Drv.C20.dictD, 5⟩ C20Schedule.evolve drvState).heap[11]?
+    = some ⟨[1, 101, 301, 201], []⟩ := by decide +kernel
+
+/-- a copy as deep as the nesting (or deeper) does keep the start state apart, on the same inputs on
+    which shallower copies fail (`shallow_level_counterexample`); the deep copy of the canonical
+    skeleton does so at every depth by `evolve_meets_spec` -/
+example : ∀ d, d < 5 → Program.Demo.levelRunOK (d + 1) d = true := by decide +kernel
+
+/-- `levelCopy 1` is the shallow copy of `shallowCopyStart` -/
+example : (levelCopy 1 given.heap 0).1 = given.heap ++ [⟨10, [5]⟩] ∧ (levelCopy 1 given.heap 0).2 = 10 := by
+  decide +kernel
+
 /-- the invariant assumed by `reset_restores_start` / `advance_meets_spec` / `history_meets_spec`
     holds of a concrete state, and a concrete admissible history: reset, advance 2, reset, advance 1,
     evolve(2, 1), advance 1 -/
-example : Good 2 [0, 1, 2, 3, 4] (vals 2 given.heap [0, 1, 2, 3, 4]) given := given_good 2
+example : Good (NoKept [0, 1, 2, 3, 4]) 2 [0, 1, 2, 3, 4] (vals 2 given.heap [0, 1, 2, 3, 4]) given := given_good 2
 example : admissible [.reset, .advance 2, .reset, .advance 1, .evolve 2 (some 1) true, .advance 1] false = true := by
   decide
 example : (runCalls demoOps 9 0 2 C20Schedule.evolve
@@ -392,16 +538,56 @@ theorem evolve_ngen_none_prerepair_counterexample :
     container although it is handed nothing (`rogueOps` writes cell 0) violates `Respects`, and the run
     violates the Spec: the initial state is modified and later replicates start from it. -/
 theorem frame_condition_necessary :
-    ¬ Respects [0, 1, 2, 3, 4] Program.Demo.rogueOps ∧
+    (∀ I : Unit → Heap (Cell Nat) → Prop, I () Program.Demo.given.heap →
+      ¬ Respects I [0, 1, 2, 3, 4] Program.Demo.rogueOps) ∧
     specTrace sameOrEqual 2 1 true (startVals 2 Program.Demo.given.heap Program.Demo.given.start)
       (evolve Program.Demo.rogueOps ⟨2, some 1, 9, true, 0, 2⟩ canonical Program.Demo.given).trace = false := by
   constructor
-  · intro h
-    have := (h.op .evaluate () Program.Demo.given.heap [] 0 0 Program.Demo.given_wf
+  · intro I hI h
+    have := (h.op .evaluate () Program.Demo.given.heap [] 0 0 hI Program.Demo.given_wf
       (Program.Demo.region_lt_length Program.Demo.given_wf Program.Demo.given_valid)
       (Program.Demo.iso_of_all_in Program.Demo.given_all_in) (by simp)).2.2.1 0 (InReg.of_mem (by simp))
     revert this
     decide +kernel
   · decide +kernel
+
+/-- **Keeping references is harmless only because `reset()` deep-copies.**  `keeperOps` keep every
+    reference they are handed and mutate the kept objects in every LATER call; they satisfy the
+    footprint condition, and on the canonical skeleton the run meets the Spec with the start containers
+    untouched.  If `reset()` hands out the stored `start_gmod` itself (`aliasGmod`), operators that
+    mutate only what they are handed *now* (`demoOps`, which never touch `gmod`) still give a correct
+    run, but the keeping operators modify the stored initial state in a later call: the dataflow
+    analysis rejects the schedule and the run violates the Spec. -/
+theorem kept_reference_alias_counterexample :
+    Footprint (fun s : List Ref => s) Program.Demo.keeperOps ∧
+    specTrace sameOrEqual 2 1 true (startVals 2 Program.Demo.givenK.heap Program.Demo.givenK.start)
+      (evolve Program.Demo.keeperOps ⟨2, some 1, 9, true, 0, 2⟩ canonical Program.Demo.givenK).trace = true ∧
+    (evolve Program.Demo.keeperOps ⟨2, some 1, 9, true, 0, 2⟩ canonical Program.Demo.givenK).heap.take 10
+      = Program.Demo.given.heap ∧
+    WellFormed Program.Demo.aliasGmod = false ∧
+    specTrace sameOrEqual 2 1 true (startVals 2 Program.Demo.given.heap Program.Demo.given.start)
+      (evolve Program.Demo.demoOps ⟨2, some 1, 9, true, 0, 2⟩ Program.Demo.aliasGmod Program.Demo.given).trace = true ∧
+    specTrace sameOrEqual 2 1 true (startVals 2 Program.Demo.givenK.heap Program.Demo.givenK.start)
+      (evolve Program.Demo.keeperOps ⟨2, some 1, 9, true, 0, 2⟩ Program.Demo.aliasGmod Program.Demo.givenK).trace = false ∧
+    (evolve Program.Demo.keeperOps ⟨2, some 1, 9, true, 0, 2⟩ Program.Demo.aliasGmod Program.Demo.givenK).heap[4]?
+      ≠ Program.Demo.given.heap[4]? := by
+  refine ⟨Program.Demo.keeper_footprint, ?_, ?_, ?_, ?_, ?_, ?_⟩
+  · decide +kernel
+  · decide +kernel
+  · decide +kernel
+  · decide +kernel
+  · decide +kernel
+  · decide +kernel
+
+/-- **A copy that stops above the deepest level is not enough.**  Start container 0 nested `d + 1`
+    levels deep (`chainState d`), operators that mutate the deepest object below what they are handed,
+    `reset()` copying `start_genome` only `k` levels deep (`levelSched k`; `k = 1` is `dict(x)`, `k = 2`
+    is `{key: copy.copy(v) …}`): for every copy depth `k` up to the nesting depth minus one the run
+    violates the Spec (the stored initial state is modified), for every nesting depth `d + 1 <= 5`;
+    the dataflow analysis rejects every such schedule. -/
+theorem shallow_level_counterexample :
+    (∀ d, d < 5 → ∀ k, k ≤ d → Program.Demo.levelRunOK k d = false) ∧
+    (∀ k, k < 6 → WellFormed (Program.Demo.levelSched k) = false) := by
+  decide +kernel
 
 end C20
